@@ -379,10 +379,14 @@ Section Bytes.
 
   (* Reader.readRawBlock(bh, verifyChecksum).
      (approx) a read that ends beyond the file: Go ignores io.EOF and works on a partly filled
-     buffer; the model reports Corrupt.  bh.length near 2^63: the buffer size is negative: Panic. *)
+     buffer; the model reports Corrupt.  bh.length near 2^63: the buffer size was negative and the code
+     panicked; since the repair "the table reader must not allocate a block buffer from an unchecked block
+     handle" readRawBlock first tests the handle against the file size and answers corruption: Corrupt.
+     (approx, crafted files only) the repaired code also refuses a block that lies inside the file but
+     overlaps the footer; the model reads it and decides by checksum and type byte. *)
   Definition read_raw_block (file : bytes) (h : bhandle) (verify : bool) : res bytes :=
     let n := bh_len h in
-    if two63 <=? n + tp_trailerLen tp then Panic
+    if two63 <=? n + tp_trailerLen tp then Corrupt
     else
       let raw := sliceN (bh_off h) (bh_off h + n + tp_trailerLen tp) file in
       if lenN raw <? n + tp_trailerLen tp then Corrupt
